@@ -99,7 +99,11 @@ class TaskScheduler(object):
         # items waiting to be flushed, or computed).
         while len(self._tasks) > init_num_tasks:
             if len(self._tasks) > _debug_options.MAX_TASK_STACK_SIZE:
+                # If we were called synchronously from inside a task, that task's code
+                # is still running and is about to receive the error below.
+                active_task = self.active_task
                 self.reset()
+                self.active_task = active_task
                 debug.dump(self)
                 raise RuntimeError(
                     "Number of scheduled tasks exceeded maximum threshold."
